@@ -31,6 +31,9 @@ type Config struct {
 	NoEcho bool
 	// EmptyOverride enables the wrapper kind whose full message is "".
 	EmptyOverride bool
+	// Verbs: printf-style constructors use other verbs than the default
+	// ones for some arguments (%q, %#v, %+v, %x ...).
+	Verbs bool
 	// UserStack enables the application-defined wrapper with StackTrace().
 	UserStack bool
 }
@@ -261,6 +264,16 @@ func (g *Gen) fill(k Kind, depth int, hidden bool) *Node {
 			default:
 				a = Arg{Kind: ArgErr, Hid: len(n.Hid)}
 				n.Hid = append(n.Hid, g.node(depth+1, true))
+			}
+			if g.Cfg.Verbs && g.T.Bool(1, 3) {
+				switch a.Kind {
+				case ArgUnsafeStr, ArgSafeStr:
+					a.Verb = []string{"%v", "%q", "%#v", "%+v"}[g.T.Draw(4)]
+				case ArgInt:
+					a.Verb = []string{"%v", "%x", "%#v"}[g.T.Draw(3)]
+				case ArgErr:
+					a.Verb = []string{"%s", "%+v", "%q", "%#v"}[g.T.Draw(4)]
+				}
 			}
 			if k == WSafeDetails && a.Kind == ArgUnsafeStr {
 				// WithSafeDetails redacts unsafe arguments away at
